@@ -15,8 +15,12 @@
    The action is applied BEFORE the match, so the id that is recorded (and later followed, in the
    map as it is at that moment) is the id the action has written.  Both actions used by
    renumbering are "if the object is a Reference(id) and id is a key of `replace`, overwrite id";
-   the model therefore takes the action as a function [f : oid -> oid] on reference ids (an
-   action that changes the shape of an object is not modelled).  [refs] is a Vec used as a set:
+   the model therefore takes the action as a function [f : oid -> oid] on reference ids.  Since the
+   repair of C10/dangling-in-range the action of the dense pass also overwrites a reference whose
+   target does not exist with Object::Null: the [_o] versions at the end of this file take the action
+   as [f : oid -> option oid] ([None] = the object becomes Null; the match that follows then falls
+   into `_ => {}`, nothing is recorded).  (Any other action that changes the shape of an object is
+   not modelled here; Model/Edit.v has its own for delete_object.)  [refs] is a Vec used as a set:
    linear `contains`, push at the end.  The while loop becomes recursion on explicit fuel with an
    out-of-fuel value [None]; Proofs/RenumberProofs.v shows [trav_fuel] always suffices.
    Definitions only. *)
@@ -118,3 +122,76 @@ Definition nrefs_dict (d : dict) : nat := fold_right (fun kv acc => nrefs (snd k
 Definition nrefs_map (m : objmap) : nat := fold_right (fun io acc => nrefs (snd io) + acc) 0 m.
 
 Definition trav_fuel (tr : dict) (m : objmap) : nat := S (nrefs_dict tr + nrefs_map m).
+
+(* ---------- the same traversal for an action that may replace a reference by Object::Null ----------
+   action = |object| if let Reference(id) = object { match f(id) { Some(new) => *id = new, None => *object = Null } } *)
+Fixpoint trav_obj_o (f : oid -> option oid) (o : obj) (refs : list oid) {struct o} : obj * list oid :=
+  match o with
+  | OArr l =>
+    let '(l', r') :=
+      (fix go (l : list obj) (refs : list oid) {struct l} : list obj * list oid :=
+         match l with
+         | [] => ([], refs)
+         | x :: l0 =>
+           let '(x', r1) := trav_obj_o f x refs in
+           let '(l1, r2) := go l0 r1 in (x' :: l1, r2)
+         end) l refs in
+    (OArr l', r')
+  | ODict d =>
+    let '(d', r') :=
+      (fix go (d : list (bytes * obj)) (refs : list oid) {struct d} : list (bytes * obj) * list oid :=
+         match d with
+         | [] => ([], refs)
+         | (k, v) :: d0 =>
+           let '(v', r1) := trav_obj_o f v refs in
+           let '(d1, r2) := go d0 r1 in ((k, v') :: d1, r2)
+         end) d refs in
+    (ODict d', r')
+  | OStream d c =>
+    let '(d', r') :=
+      (fix go (d : list (bytes * obj)) (refs : list oid) {struct d} : list (bytes * obj) * list oid :=
+         match d with
+         | [] => ([], refs)
+         | (k, v) :: d0 =>
+           let '(v', r1) := trav_obj_o f v refs in
+           let '(d1, r2) := go d0 r1 in ((k, v') :: d1, r2)
+         end) d refs in
+    (OStream d' c, r')
+  | ORef i g =>
+    match f (i, g) with
+    | Some id' => (mk_ref id', push_ref refs id')
+    | None => (ONull, refs)
+    end
+  | _ => (o, refs)
+  end.
+
+Fixpoint trav_dict_o (f : oid -> option oid) (d : dict) (refs : list oid) : dict * list oid :=
+  match d with
+  | [] => ([], refs)
+  | (k, v) :: d0 =>
+    let '(v', r1) := trav_obj_o f v refs in
+    let '(d1, r2) := trav_dict_o f d0 r1 in ((k, v') :: d1, r2)
+  end.
+
+Fixpoint trav_loop_o (f : oid -> option oid) (fuel : nat) (m : objmap) (refs : list oid) (index : nat)
+  : option (objmap * list oid) :=
+  match fuel with
+  | O => None
+  | S k =>
+    match nth_error refs index with
+    | None => Some (m, refs)
+    | Some id =>
+      match lookup m id with
+      | Some o => let '(o', refs') := trav_obj_o f o refs in trav_loop_o f k (update m id o') refs' (S index)
+      | None => trav_loop_o f k m refs (S index)
+      end
+    end
+  end.
+
+Definition traverse_objects_o (f : oid -> option oid) (fuel : nat) (tr : dict) (m : objmap)
+  : option (dict * objmap * list oid) :=
+  let '(tr', refs) := trav_dict_o f tr [] in
+  match trav_loop_o f fuel m refs 0 with
+  | Some (m', refs') => Some (tr', m', refs')
+  | None => None
+  end.
